@@ -229,7 +229,7 @@ func TestVerif_C01_h1send(t *testing.T) {
 		// still arrive whole (head + body as the model sendH1 writes them) and the follow-up must be
 		// read as a request of its own.
 		early := false
-		if tc.bodyKind != 0 && len(tc.body) > 0 && (tc.cl <= 0 || tc.cl == int64(len(tc.body))) && !tc.close && tc.method != "CONNECT" && r.Intn(3) == 0 {
+		if tc.bodyKind != 0 && len(tc.body) > 1 && (tc.cl <= 0 || tc.cl == int64(len(tc.body))) && tc.method != "CONNECT" && r.Intn(3) == 0 {
 			early = true
 			for k := range tc.header {
 				if strings.EqualFold(k, "Expect") || strings.EqualFold(k, "Connection") || k == HeaderOderKey {
@@ -325,7 +325,7 @@ func TestVerif_C01_h1send(t *testing.T) {
 			s.Count("skipped:dial-error")
 			continue
 		}
-		followed, followNote := false, ""
+		followed, followNote, expectObs := false, "", ""
 		if early && err == nil && resp != nil && resp.StatusCode == 401 {
 			followed = true
 			freq := &http.Request{Method: "GET", URL: &url.URL{Scheme: "http", Host: u.Host, Path: "/c01-follow"}, Header: http.Header{}, Proto: "HTTP/1.1", ProtoMajor: 1, ProtoMinor: 1}
@@ -367,6 +367,7 @@ func TestVerif_C01_h1send(t *testing.T) {
 			// idle yet): that capture is not the case's request
 			var keep []*c01Capture1
 			nFollow := 0
+			reusedConn := false
 			for _, c := range caps {
 				if c01IsFollow(c.first) {
 					nFollow++
@@ -375,6 +376,9 @@ func TestVerif_C01_h1send(t *testing.T) {
 				if c.early && c.end1 > 0 {
 					c.tail = append([]byte(nil), c.raw.Bytes()[c.end1:]...)
 					c.raw.Truncate(c.end1)
+					if len(c.tail) > 0 {
+						reusedConn = true
+					}
 					if c01IsFollow(c.second) {
 						nFollow++
 						s.Count("expect-early-final:connection-reused")
@@ -389,6 +393,21 @@ func TestVerif_C01_h1send(t *testing.T) {
 				followNote = fmt.Sprintf(" ORACLE: the follow-up request was seen %d times by the peer as GET /c01-follow", nFollow)
 			}
 			s.Count("expect-early-final")
+			// what the model Req.H1.Expect says about this exchange (lane line c01expect): did the
+			// write loop take the body from the caller's reader, did the connection carry more
+			pulled := 0
+			for _, z := range rec {
+				pulled += z
+			}
+			// (a body of unknown length is probed for emptiness — one byte — while the head is
+			// being written: only the WHOLE body taken counts as sent, bodies here have >= 2 bytes)
+			expectObs = "body=" + c01b(pulled == len(tc.body)) + " reuse=" + c01b(reusedConn)
+			if pulled != 0 && pulled != 1 && pulled != len(tc.body) {
+				expectObs += fmt.Sprintf(" pulled=%d/%d", pulled, len(tc.body))
+			}
+			if tc.close {
+				s.Count("expect-early-final:request-close")
+			}
 		}
 		if d := time.Since(t0); d > 150*time.Millisecond {
 			s.Count("slow>150ms")
@@ -492,9 +511,12 @@ func TestVerif_C01_h1send(t *testing.T) {
 			ok = false
 			human += followNote
 		}
+		if followed {
+			s.Case("c01expect "+c01b(tc.close)+" 0", expectObs, true, "", true, "early final status (401, connection kept by the peer) before 100 Continue: "+human)
+		}
 		s.Case(c01H1Line("c01send "+mode, tc, rec), ans, ok, "", sent, human+fmt.Sprintf(" -> err=%v connections=%d", err, len(caps)))
 	}
-	s.Need(t, "err:header", "err:method", "err:ctl", "err:bodylen", "sent:plain", "sent:order-mode", "sent:refused-by-reference-parser", "expect-early-final", "expect-early-final:connection-reused")
+	s.Need(t, "err:header", "err:method", "err:ctl", "err:bodylen", "sent:plain", "sent:order-mode", "sent:refused-by-reference-parser", "expect-early-final", "expect-early-final:connection-reused", "expect-early-final:request-close")
 	if k := s.seen["skipped:harness-timeout"]; k > 3 && k*100 > 3*n {
 		t.Errorf("%d of %d cases ended in a time-out with nothing captured: more than a stalled machine explains", k, n)
 	}
